@@ -946,14 +946,11 @@ def self_test():
     k = rng.randrange(1, e.n)
     u = montgomery_ladder(c25, k, 9)
     assert (u - 1) * pow(u + 1, -1, e.p) % e.p == ed_mul(e, k, e.G)[1]
-    # 4-isogeny-free check for 448: Ed448 y of k*B relates to Curve448 through
-    # u = y^2/x^2 (RFC 7748 4.2)
+    # RFC 7748 4.2: (x, y) -> u = y^2 / x^2 is a 4-isogeny edwards448 ->
+    # curve448, hence a group homomorphism: phi(k * B) = k * phi(B).
     e = CURVES["Ed448"]
     k = rng.randrange(1, e.n)
     x, y = ed_mul(e, k, e.G)
-    # the map (x, y) -> u = y^2/x^2 is the 4-isogeny edwards448 -> curve448;
-    # it sends the Ed448 base point to u = 5 ... up to the isogeny degree:
-    # phi(k * B) = k * phi(B)
     uB = e.Gy ** 2 * pow(e.Gx ** 2, -1, e.p) % e.p
     assert y * y * pow(x * x, -1, e.p) % e.p == montgomery_ladder(c448, k, uB)
 
